@@ -120,6 +120,33 @@ def run(tier, seed):
         dc = dft(xs, [0.0])[0]
         lazy_analysis.cexp = sym_cexp
         R.check(abs(dc - float(sum(xs) / L)) < 1e-12, "dc-bin-of-normalised-dft-is-the-mean", {"L": L}, "dc bin %r mean %s" % (dc, sum(xs) / L))
+    # scale: long blocks (numeric, cmath) - every bin is the defining sum; DC bin == mean
+    lazy_analysis.cexp = cmath.exp
+    for L in (65, 130, 257):
+        xs = [float((7 * i * i + 3 * i) % 23 - 11) / 4 for i in range(L)]
+        for w in (0.0, 0.3, 1.7, math.pi):
+            for normalize in (True, False):
+                got = dft(xs, [w], normalize=normalize)[0]
+                exp = sum(v * cmath.exp(-1j * w * n) for n, v in enumerate(xs)) / (L if normalize else 1)
+                R.check(abs(got - exp) < 1e-8 * max(1.0, abs(exp)), "dft-is-the-defining-sum", {"L": L, "w": w, "normalize": normalize}, "dft of a %d-sample block at w=%r: %r, defining sum %r" % (L, w, got, exp))
+    lazy_analysis.cexp = sym_cexp
+    # a coefficient updated in place between two queries of the same frequency
+    lazy_filters.complex_exp = cmath.exp
+    def upd():
+        flt = ZFilter([1.0, 0.5, 0.25], [1.0, -0.5])
+        for rnd_ in range(3):
+            for w in (0.0, 0.4, 2.0):
+                b = [flt.numpoly[k] for k in range(3)]
+                a = [flt.denpoly[k] for k in range(2)]
+                exp = sum(bk * cmath.exp(-1j * w * k) for k, bk in enumerate(b)) / sum(ak * cmath.exp(-1j * w * k) for k, ak in enumerate(a))
+                got = flt.freq_response(w)
+                if abs(got - exp) > 1e-9:
+                    return False, "freq_response(%r) after %d in-place coefficient updates: %r, transfer function of the current coefficients %r" % (w, rnd_, got, exp)
+            flt.numpoly[1] = flt.numpoly[1] + 1.5
+            flt.denpoly[1] = flt.denpoly[1] / 2
+        return True, ""
+    R.guard("freq_response-is-the-transfer-function", {"coefficients": "updated in place between queries"}, upd)
+    lazy_filters.complex_exp = sym_cexp
     # time domain links (FIR): DFT of the impulse response at w == freq_response(w); steady state of a complex exponential
     for nb in (1, 2, 3, 4):
         b = [F(k + 1, 2) * (-1) ** k for k in range(nb)]
